@@ -1917,13 +1917,25 @@ void run_models_case(vf::ctx_t& c)
             [](const wlearner_t& a, const wlearner_t& b) { return wlearner_difference(a, b); }, env, decoded, h, fitted);
         nt = fitted ? h : 0;
 
-        // reading into an object that is already in ANOTHER fitted state (fitted on the negated gradients: other
+        // reading into an object that is already in ANOTHER fitted state (fitted on other gradients: other
         // thresholds, directions, tables) must give the written object as well - a reader must restore every field
         if (fitted)
         {
             auto       other = wlearner_t::all().get(id);
+            // independent gradients (not just negated ones: a negation flips coefficients, not hinge directions)
             tensor4d_t negated(gradients.dims());
-            negated.vector() = -gradients.vector();
+            for (tensor_size_t s = 0; s < negated.size(); ++s)
+            {
+                negated(s) = rng.chance(0.5) ? -gradients(s) : rng.uniform(-1.0, 1.0) * (1.0 + std::fabs(gradients(s)));
+            }
+            if (rng.chance(0.5))
+            {
+                // mirrored along the sample order: an increasing trend becomes a decreasing one
+                for (tensor_size_t s = 0, n = negated.size<0>(); s < n / 2; ++s)
+                {
+                    std::swap(negated(s), negated(n - 1 - s));
+                }
+            }
             for (const auto& p : wl->parameters())
             {
                 std::ostringstream os;
